@@ -286,11 +286,13 @@ func (f *Simple) makeDict() (*dict.TrueType, error) {
 	isSymbolic := f.isSymbolic()
 
 	var dictEnc encoding.Simple
+	toUnicode := f.Simple.ToUnicode()
 	if isSymbolic {
 		// Use the built-in encoding, defined by a (1,0) "cmap" subtable which
 		// maps codes to a GIDs.
 
 		dictEnc = encoding.Builtin
+		toUnicode = f.Simple.ToUnicodeBuiltin()
 
 		subtable := sfntcmap.Format4{}
 		for code := range 256 {
@@ -392,7 +394,7 @@ func (f *Simple) makeDict() (*dict.TrueType, error) {
 		Descriptor:     fd,
 		Encoding:       dictEnc,
 		FontFile:       sfntglyphs.ToStream(subsetFont, glyphdata.TrueType),
-		ToUnicode:      f.Simple.ToUnicode(),
+		ToUnicode:      toUnicode,
 	}
 	for c, info := range f.Simple.MappedCodes() {
 		dict.Width[c] = info.Width
